@@ -34,6 +34,7 @@ Act ==
     \/ Ev.op = "FindLocal"  /\ FindLocal(Ev.args.tok)
     \/ Ev.op = "FindNameid" /\ FindNameid(Ev.args.u, Ev.args.sp, Ev.args.fmt)
     \/ Ev.op = "RemoveRemote" /\ ~IsUnknown /\ RemoveRemote(Ev.args.n)
+    \/ Ev.op = "RemoveRemoteStale" /\ RemoveRemoteStale(Ev.args.n)
     \/ Ev.op = "Manage"  /\ ~IsUnknown /\ Manage(Ev.args.n, Ev.args.spid)
     \/ Ev.op = "Mapping" /\ ~IsUnknown /\ Mapping(Ev.args.n, Ev.args.fmt, Ev.args.sp, Ev.args.allow)
     \/ Ev.op = "RemoveLocal" /\ (RemoveLocalFails(Ev.args.u) \/ RemoveLocalOk(Ev.args.u))
